@@ -1,0 +1,15 @@
+//go:build verif
+// +build verif
+
+package utxo
+
+// VerifYieldHook, when set, is called at every yield point between the atomic
+// steps of SpinLock.TryLock / SpinLock.Unlock (build tag verif only). A
+// deterministic scheduler uses it to enumerate interleavings of the real code.
+var VerifYieldHook func(label string)
+
+func verifYield(label string) {
+	if h := VerifYieldHook; h != nil {
+		h(label)
+	}
+}
